@@ -253,3 +253,45 @@ def fdsync(prop, seed, index, tier):
         os.fsync, fcntl.fcntl = real_fsync, real_fcntl
         shutil.rmtree(root, ignore_errors=True)
     return {'sig': ['fdsync', use_full], 'nontrivial': True, 'use_fullsync': use_full, 'calls': 40}
+
+
+def cleanbulk(prop, seed, index, tier):
+    """C16 (maintenance bulk operations): pack_all_loose / clean_storage over n loose objects, n on both sides of the
+    (lowered) batch and strategy thresholds, must treat every key like the single-key case: afterwards every loose object
+    is packed, resp. no packed object is left loose; content unchanged."""
+    rng = random.Random(f'cleanbulk/{seed}/{index}')
+    old = (Container._IN_SQL_MAX_LENGTH, Container._MAX_CHUNK_ITERATE_LENGTH)
+    Container._IN_SQL_MAX_LENGTH, Container._MAX_CHUNK_ITERATE_LENGTH = 3, 7
+    root = scratch_root()
+    n_done = 0
+    try:
+        sizes = [1, 2, 3, 4, 5, 6, 7, 8, 9, 13] if tier == 'quick' else list(range(1, 20))
+        n = sizes[index % len(sizes)]
+        extra = rng.randrange(0, 5)
+        c = Container(os.path.join(root, 'c'))
+        c.init_container(clear=True, pack_size_target=rng.choice([1, 300, 10 ** 9]), loose_prefix_len=rng.choice([0, 2]))
+        model = {}
+        for i in range(n):
+            b = b'packed-later %d %d' % (index, i) * rng.randrange(1, 20)
+            model[c.add_object(b)] = b
+        c.pack_all_loose(compress=rng.random() < .5)
+        packed = set(model)
+        left = {k for k in packed if os.path.exists(c._get_loose_path_from_hashkey(k))}
+        chk('C16', left == packed, 'pack_all_loose without per-pack cleaning removed loose files')
+        chk('C16', c.count_objects().packed == n, f'pack_all_loose packed {c.count_objects().packed} of {n} loose objects')
+        for i in range(extra):
+            b = b'still loose %d %d' % (index, i)
+            model[c.add_object(b)] = b
+        c.clean_storage()
+        still = {k for k in packed if os.path.exists(c._get_loose_path_from_hashkey(k))}
+        chk('C16', not still, f'clean_storage left {len(still)} of {n} packed objects loose (bulk != each key)', n=n, extra=extra)
+        for k, b in model.items():
+            chk('C16', c.get_object_content(k) == b, f'{k} does not read back after pack+clean')
+        cnt = c.count_objects()
+        chk('C16', cnt.packed == n and cnt.loose == extra, f'counts after clean: {cnt} (expected packed={n}, loose={extra})')
+        c.close()
+        n_done = n
+    finally:
+        Container._IN_SQL_MAX_LENGTH, Container._MAX_CHUNK_ITERATE_LENGTH = old
+        shutil.rmtree(root, ignore_errors=True)
+    return {'sig': ['cleanbulk', n_done, extra], 'nontrivial': n_done >= 2, 'n': n_done, 'extra': extra}
